@@ -191,8 +191,12 @@ def run_compu(task: Tuple, col: common.Collector) -> None:
              and c["cat"] != "COMPUCODE" and not c.get("risky")]
     if not cases:
         return
+    # (a coarse PRECISION - a display hint - on every second real-valued physical type)
     dops = [odxgen.dop(f"d{k}", odxgen.dct_std(c["itype"], c["bits"]), ptype=c["ptype"],
-                       compu=c["compu"]) for k, c in enumerate(cases)]
+                       compu=c["compu"],
+                       precision=(k % 3 if c["ptype"] in ("A_FLOAT32", "A_FLOAT64") and k % 2 else None),
+                       radix=("HEX" if c["ptype"] in ("A_UINT32", "A_INT32") and k % 4 == 1 else None))
+            for k, c in enumerate(cases)]
     reqs = [{"name": f"rq{k}", "params": [odxgen.u8const("sid", 0x22, 0),
                                           odxgen.p_value("v", f"d{k}", 1)]}
             for k in range(len(cases))]
